@@ -122,6 +122,18 @@ def check_lru(lru, fn, out, stats, seen_classes):
         k = FAILS[before]
         out.append(D(["C17"], "variations-" + k[0], lru=lru, got=k[3]))
         return
+    # the same postconditions on what this entry point returned (it may not go through the wrapped helper)
+    Vl = list(V) if V is not None else []
+    if not Vl or Vl[0] != lru:
+        out.append(D(["C17"], "variations-prefix-not-first", lru=lru, got=Vl[:4]))
+        return
+    if len(set(Vl)) != len(Vl):
+        out.append(D(["C17"], "variations-entry-twice", lru=lru, got=Vl[:6]))
+        return
+    for v in Vl:
+        if not shape_ok(lru, v):
+            out.append(D(["C17"], "variations-changes-more-than-scheme-and-www", lru=lru, got=v))
+            return
     stats["C17_lrus"] += 1
     if len(V) > 1:
         seen_classes.add(frozenset(V))
